@@ -99,6 +99,12 @@ type canonOpts struct {
 // always equals.
 func canon(v ssa.Value, o canonOpts) ssa.Value {
 	for depth := 0; depth < 40 && v != nil; depth++ {
+		if substEnv != nil {
+			if s, ok := substEnv[v]; ok && s != v {
+				v = s
+				continue
+			}
+		}
 		switch x := v.(type) {
 		case *ssa.UnOp:
 			if x.Op != token.MUL {
